@@ -76,6 +76,13 @@ func (u *Universe) Render() string {
 	var b strings.Builder
 	b.WriteString("namespace go verif\n\n")
 	for _, s := range u.Structs {
+		for _, f := range s.Fields {
+			if f.DefaultRef != "" && !strings.Contains(b.String(), "enum VE") {
+				b.WriteString("enum VE { V0 = 0, V1 = 1, V7 = 7, V100 = 100 }\n\n")
+			}
+		}
+	}
+	for _, s := range u.Structs {
 		fmt.Fprintf(&b, "struct %s {\n", s.Name)
 		for _, f := range s.Fields {
 			req := ""
@@ -86,7 +93,9 @@ func (u *Universe) Render() string {
 				req = "optional "
 			}
 			fmt.Fprintf(&b, "  %d: %s%s %s", f.ID, req, TypeIDL(f.T), f.Name)
-			if f.Default != nil {
+			if f.Default != nil && f.DefaultRef != "" {
+				fmt.Fprintf(&b, " = %s", f.DefaultRef)
+			} else if f.Default != nil {
 				fmt.Fprintf(&b, " = %s", constIDL(f.Default))
 			}
 			var annos []string
